@@ -142,6 +142,22 @@ func (w *world) call(proc int, desc ab.Rec, legit bool, f func()) (ok bool) {
 	return true
 }
 
+// aliased tells whether two entries of the dumped table (or an entry and a reserved migration source) share a
+// physical page.
+func (w *world) aliased(pt []ab.Rec) bool {
+	seen := map[interface{}]bool{}
+	for _, h := range w.held {
+		seen[h] = true
+	}
+	for _, p := range pt {
+		if seen[p["ppn"]] {
+			return true
+		}
+		seen[p["ppn"]] = true
+	}
+	return false
+}
+
 func bytesFor(n, rem int, psz uint64) uint64 {
 	last := psz
 	switch rem {
@@ -180,17 +196,7 @@ func (w *world) alloc(ctx, dev, n, rem int, unified bool) bool {
 		"v": ptr / w.psz, "voff": ptr % w.psz, "pt": pt})
 	// an allocation beyond capacity that succeeds, or one that returns a page another mapping or a pending
 	// migration already uses, ends the history: the specification decides whether that is explicable
-	seen := map[interface{}]bool{}
-	for _, h := range w.held {
-		seen[h] = true
-	}
-	for _, p := range pt {
-		if seen[p["ppn"]] {
-			w.dead = true
-		}
-		seen[p["ppn"]] = true
-	}
-	if legit {
+	if legit || w.aliased(pt) {
 		w.dead = true
 	}
 	return true
@@ -223,7 +229,11 @@ func (w *world) remap(ctx, b, off, n, rem, dev int) bool {
 	if !ok {
 		return false
 	}
-	w.emit("Remap", ab.Rec{"pid": proc, "ctx": ctx, "v": addr / w.psz, "voff": addr % w.psz, "bytes": bytes, "dev": dev, "pt": w.dump()})
+	pt := w.dump()
+	w.emit("Remap", ab.Rec{"pid": proc, "ctx": ctx, "v": addr / w.psz, "voff": addr % w.psz, "bytes": bytes, "dev": dev, "pt": pt})
+	if w.aliased(pt) {
+		w.dead = true
+	}
 	return true
 }
 
@@ -242,8 +252,12 @@ func (w *world) dist(ctx, b int, gpus []int) bool {
 		rp = append(rp, r/w.psz)
 		rr = append(rr, r%w.psz)
 	}
+	pt := w.dump()
 	w.emit("Dist", ab.Rec{"pid": proc, "ctx": ctx, "v": bf.ptr / w.psz, "voff": bf.ptr % w.psz, "bytes": bf.bytes, "gpus": gpus,
-		"ret": rp, "retrem": rr, "pt": w.dump()})
+		"ret": rp, "retrem": rr, "pt": pt})
+	if w.aliased(pt) {
+		w.dead = true
+	}
 	return true
 }
 
@@ -281,8 +295,12 @@ func (w *world) migrate(b, off, gpu int) bool {
 				now, f := w.find(proc, vaddr)
 				if !f || now != before {
 					logged = true
+					pt := w.dump()
+					w.emit("Mig", ab.Rec{"pid": proc, "v": vaddr / w.psz, "voff": vaddr % w.psz, "gpu": gpu, "pt": pt})
+					if w.aliased(pt) { // the target page is live: the history ends (w.held not yet extended: it lists sources)
+						w.dead = true
+					}
 					w.held = append(w.held, before.PAddr/w.psz)
-					w.emit("Mig", ab.Rec{"pid": proc, "v": vaddr / w.psz, "voff": vaddr % w.psz, "gpu": gpu, "pt": w.dump()})
 				}
 			}
 			for {
@@ -405,8 +423,13 @@ func (w *world) launch(ctx, gpu int) bool {
 		first := w.written[0].vaddr
 		n := len(w.written)
 		w.bufs = append(w.bufs, buf{ctx: ctx, ptr: first, pages: n, live: true, bytes: uint64(n) * w.psz, internal: true})
+		pt := w.dump()
 		w.emit("Alloc", ab.Rec{"pid": proc, "ctx": ctx, "dev": gpu, "bytes": uint64(n) * w.psz, "uni": 0,
-			"v": first / w.psz, "voff": first % w.psz, "pt": w.dump(), "internal": 1})
+			"v": first / w.psz, "voff": first % w.psz, "pt": pt, "internal": 1})
+		if w.aliased(pt) {
+			w.dead = true
+			return false
+		}
 	}
 	ok = w.call(proc, ab.Rec{"op": "LaunchRun", "pid": proc, "ctx": ctx}, false, func() { w.pump(q) })
 	if !ok {
